@@ -5,6 +5,8 @@ import (
 	"go/token"
 	"go/types"
 	"math/big"
+	"os"
+	"strings"
 
 	"golang.org/x/tools/go/ssa"
 )
@@ -202,8 +204,14 @@ func (fr *Frame) safety(st *State, kind string, cond *Term, pos token.Pos, instr
 	}
 }
 
+// exprText names the program point of a safety obligation by the text of its source line rather than by
+// line number or SSA register, so that the name survives edits elsewhere in the file.
 func (fr *Frame) exprText(instr ssa.Instruction, pos token.Pos) string {
 	p := fr.pos(pos)
+	fn := fr.fn.Name()
+	if t := srcLine(p); t != "" {
+		return fmt.Sprintf("%s:%s", fn, t)
+	}
 	s := ""
 	if v, ok := instr.(ssa.Value); ok {
 		s = v.String()
@@ -213,8 +221,33 @@ func (fr *Frame) exprText(instr ssa.Instruction, pos token.Pos) string {
 	if len(s) > 60 {
 		s = s[:60]
 	}
-	fn := fr.fn.Name()
 	return fmt.Sprintf("%s:%s:L%d", fn, s, p.Line)
+}
+
+var srcCache = map[string][]string{}
+
+func srcLine(p token.Position) string {
+	if p.Filename == "" || p.Line <= 0 {
+		return ""
+	}
+	lines, ok := srcCache[p.Filename]
+	if !ok {
+		if b, err := os.ReadFile(p.Filename); err == nil {
+			lines = strings.Split(string(b), "\n")
+		}
+		srcCache[p.Filename] = lines
+	}
+	if p.Line > len(lines) {
+		return ""
+	}
+	t := strings.Join(strings.Fields(lines[p.Line-1]), " ")
+	if i := strings.Index(t, "//"); i > 0 {
+		t = strings.TrimSpace(t[:i])
+	}
+	if len(t) > 70 {
+		t = t[:70]
+	}
+	return t
 }
 
 func (fr *Frame) panicReached(st *State, in *ssa.Panic) {
@@ -263,7 +296,11 @@ func (fr *Frame) safetyNamed(st *State, kind string, cond *Term, pos token.Pos, 
 	}
 	if ex.safety {
 		p := fr.pos(pos)
-		ex.assert(st, "safety."+kind, fmt.Sprintf("%s@%s:%s:L%d", kind, fr.fn.Name(), what, p.Line), ex.w.safetyTags, cond, p)
+		at := srcLine(p)
+		if at == "" {
+			at = fmt.Sprintf("L%d", p.Line)
+		}
+		ex.assert(st, "safety."+kind, fmt.Sprintf("%s@%s:%s:%s", kind, fr.fn.Name(), what, at), ex.w.safetyTags, cond, p)
 	} else {
 		ex.assume(st, cond)
 	}
